@@ -62,14 +62,23 @@ def atomsO (o : OReq) : List Atom := o.messages.flatMap omsgAtoms
 /-- Required fields present, numeric fields inside the accepted ranges, every message content a
     string or block(s), and a forced tool choice names its tool (`errorRows` = the tool_choice
     rows the API rejects). -/
-def validIn (lim : Limits) (errorRows : List (String × String)) (r : AReq) : Bool :=
+def optOk (rg : Range) (x : Option Int) : Bool :=
+  match x with
+  | some v => rg.contains v
+  | none => true
+
+/-- Required fields present and numeric fields inside the accepted ranges. -/
+def fieldsOk (lim : Limits) (r : AReq) : Bool :=
   !(lim.requiresModel && r.model == "") && !(lim.requiresMessages && r.messages.isEmpty) &&
   lim.maxTokens.contains r.maxTokens &&
-  (match r.temperature with | some t => lim.temperature.contains t.micros | none => true) &&
-  (match r.topP with | some t => lim.topP.contains t.micros | none => true) &&
-  (match r.topK with | some k => lim.topK.contains k | none => true) &&
-  r.messages.all (fun m => !m.content.isBad) &&
-  (r.tools.isEmpty || (match choiceRow r.choice with | some row => !errorRows.contains row | none => true))
+  optOk lim.temperature (r.temperature.map (·.micros)) && optOk lim.topP (r.topP.map (·.micros)) &&
+  optOk lim.topK r.topK
+
+def choiceOk (errorRows : List (String × String)) (r : AReq) : Bool :=
+  r.tools.isEmpty || (match choiceRow r.choice with | some row => !errorRows.contains row | none => true)
+
+def validIn (lim : Limits) (errorRows : List (String × String)) (r : AReq) : Bool :=
+  fieldsOk lim r && r.messages.all (fun m => !m.content.isBad) && choiceOk errorRows r
 
 /-- The one rejected tool_choice form: `{"type":"tool"}` without a `name`. -/
 def errorRows : List (String × String) := [("obj", "tool")]
